@@ -34,7 +34,7 @@ def main():
             if 'translation_failed' in text:
                 sys.exit(f'{f}.v failed to translate: nothing pinned')
             pins += [(f, n, h) for n, h in re.findall(r'Definition (\w+) : string := "(\w+)"', text)]
-        conj = ' /\\\n  '.join(f'{f}.{n} = "{h}"' for f, n, h in pins)
+        conj = ' /\\\n  '.join(f'{f}.{n} = "{h}"%string' for f, n, h in pins)
         block = (f'{BEGIN}\n(* The functions and classes of /repo that hand-written parts of the model mirror (Model/VM.v, NameLevel.v, Loopback.v) and the glue around the modelled core\n'
                  f'   this property is anchored in: the fingerprints (sha256 of the normalised source, comments and docstrings dropped) are regenerated on every run; an edit of one\n'
                  f'   of them re-opens this property even if no sampled case shows a difference.  Rewritten by tools/pin_shapes.py on a tree on which every check passes. *)\n'
